@@ -62,6 +62,8 @@ pub struct RunEnv {
     /// content of a file that already exists at the output path (an earlier analysis of the same
     /// run, possibly longer than the new output); None = the path does not exist
     pub stale_output: Option<Vec<u8>>,
+    /// clock seam: every clock of the child jumps forward by 40 s .. 2 h on seeded reads
+    pub clock_seed: Option<u64>,
 }
 
 pub struct RunResult {
@@ -105,6 +107,7 @@ pub fn run_binary(name: &str, cwd: &Path, files: &[PathBuf], extra: &[&str], out
     cmd.env_remove("VERIF_HASH_SEED");
     cmd.env_remove("LD_PRELOAD");
     cmd.env_remove("VERIF_IO_SEED");
+    cmd.env_remove("VERIF_CLOCK_SEED");
     cmd.env_remove("VERIF_IO_HARD");
     cmd.env_remove("VERIF_IO_DIR");
     cmd.env_remove("VERIF_IO_FIRED");
@@ -131,6 +134,10 @@ pub fn run_binary(name: &str, cwd: &Path, files: &[PathBuf], extra: &[&str], out
         cmd.env("VERIF_IO_HARD", format!("{}:{n}", if write { 'w' } else { 'r' }));
         cmd.env("VERIF_IO_DIR", cwd);
         cmd.env("VERIF_IO_FIRED", &fired);
+        cmd.env("LD_PRELOAD", verif_dir().join("target").join("libverif_getrandom.so"));
+    }
+    if let Some(c) = env.clock_seed {
+        cmd.env("VERIF_CLOCK_SEED", c.to_string());
         cmd.env("LD_PRELOAD", verif_dir().join("target").join("libverif_getrandom.so"));
     }
     if let Some(h) = env.hash_seed {
